@@ -18,7 +18,7 @@ BUDGET = {
     "quick": {"runs": 2400, "wall": 150, "chunk": 30, "minimise": 80},
     "thorough": {"runs": 150_000, "wall": 1500, "chunk": 100, "minimise": 150},
 }
-REQUIRED_PROBES = {"quick": ("short_write", "eagain", "size_above_buffer", "paced_reader"),
+REQUIRED_PROBES = {"quick": ("short_write", "eagain", "size_above_buffer", "paced_reader", "peer_fin_mid_message"),
                    "thorough": ("short_write", "eagain", "size_above_buffer", "paced_reader", "reset_mid_message",
                                 "size_ge_1mib", "hard_error_during_send")}
 EVIDENCE = {
@@ -73,8 +73,10 @@ def gen_plan(rng, tier, index):
     total = sum(s_[0] for s_ in sends)
     if plan["pacing"] != "immediate":
         plan["read_size"] = max(plan["read_size"], total // 1500 + 1)
-    if rng.random() < 0.2:
+    if rng.random() < 0.3:
         plan["reset_after"] = rng.randrange(0, total + 1)
+        # the peer either resets the connection or stops reading and half-closes it (FIN) at that point
+        plan["fault_kind"] = rng.choice(["rst", "fin", "fin"])
     if buf <= 7 and plan["pacing"] in ("small", "stopgo"):
         plan["read_size"] = max(plan["read_size"], 100)
     sched = dict(rng.choice(SCHEDS))
@@ -106,7 +108,10 @@ def run(sim, plan):
     net = sim.make_net(latency=plan["latency"], sndbuf=plan["buf"], short_write_p=plan["forced_short_p"],
                        eagain_p=plan.get("eagain_p", 0))
     received = bytearray()
+    accepted = bytearray()     # every byte the endpoint's socket accepted from send(), in order
     state = {"eof": None, "sock": None}
+    net.taps.append(lambda side, conn_id, chunk: accepted.extend(chunk) if side == ep_side["s"] else None)
+    ep_side = {"s": "client" if active else "server"}
 
     def attach(sock):
         state["sock"] = sock
@@ -125,14 +130,23 @@ def run(sim, plan):
             state["reset_done"] = True
             sim.fault("reset_mid_message")
             net.refuse_all = True   # the link stays down afterwards
-            state["sock"].reset()
+            if plan.get("fault_kind", "rst") == "rst":
+                state["sock"].reset()
+            else:
+                # half-close: the peer sends FIN, keeps its socket open and stops reading, so the sender's buffer stays
+                # full; it gives up (full close) a few seconds later
+                sim.fault("peer_fin_mid_message")
+                state["stop_reading"] = True
+                state["sock"].on_bytes = None
+                state["sock"].shutdown(1)
+                k.schedule(4.0, state["sock"].close)
 
     def reader(sock):
         sim.probe("paced_reader")
         if plan["pacing"] == "delayed":
             facades.time_facade.sleep(1.5)
         n = 0
-        while sock._fd >= 0:
+        while sock._fd >= 0 and not state.get("stop_reading"):
             r, _, _ = facades_select([sock], [], [], 0.5)
             if not r:
                 if state["eof"]:
@@ -213,7 +227,10 @@ def run(sim, plan):
     total = sum(n for n, _ in plan["sends"])
     reads = total / max(1, min(plan["buf"], plan["read_size"])) + 1
     limit = 60 + total / 2000 + reads * (plan["read_gap"] + 0.7)
-    done = sim.wait_until(lambda: call["done"], limit)
+    done = sim.wait_until(lambda: call["done"] or state.get("reset_done"), limit)
+    if state.get("reset_done"):
+        limit = 30    # after the peer reset/half-closed the link nothing is drained any more
+        done = sim.wait_until(lambda: call["done"], limit)
     if not done and state.get("reset_done") is None:
         sim.violation("C10.R2", f"send did not complete within {limit:.0f} virtual s although the reader keeps "
                       "draining", sig="C10.R2|send-stuck")
@@ -253,6 +270,16 @@ def run(sim, plan):
             sim.violation("C10.R2", f"socket.send() raised EPIPE/ECONNRESET during a {n_}-byte send_data call, which "
                           "nevertheless reported success", sig="C10.R2|error-reported-as-success")
     ok_concat = b"".join(b for b, ok in results if ok)
+    # R2': whatever is reported as sent must at least have been handed to the socket completely and in order
+    acc = bytes(accepted)
+    if path == "raw":
+        if active and acc[:4] == b"\x00\x00\x00\x0a" and len(acc) >= 14 and acc[9] == rc.SELECT_REQ:
+            acc = acc[14:]
+        if not acc.startswith(ok_concat):
+            sim.violation("C10.R2", f"sends reported successful carry {len(ok_concat)} bytes, but the socket accepted only "
+                          f"{len(acc)} payload bytes (or different ones): success was reported for bytes that were never "
+                          f"written; fault={plan.get('fault_kind') if plan['reset_after'] is not None else None}",
+                          sig="C10.R2|success-for-unwritten-bytes")
     if state.get("reset_done"):
         # reset batch: whatever was read must be a prefix of what the senders handed over, in order
         all_concat = b"".join(b for b, ok in results)
